@@ -120,6 +120,7 @@ __CPROVER_ensures(nv_nfields == __CPROVER_old(nv_nfields) + 1 && (__CPROVER_old(
 __CPROVER_ensures((__CPROVER_old(nv_nfields) == nv_g && count > 0 && __CPROVER_old(nv_c_ptr) == data && __CPROVER_old(nv_c_n) == W * count) ==> nv_f_cid == __CPROVER_old(nv_c_id))
 #define NV_CONTRACT_write_ptr_f64 NV_WRITE_PTR(8)
 #define NV_CONTRACT_write_ptr_i64 NV_WRITE_PTR(8)
+#define NV_CONTRACT_write_ptr_i8 NV_WRITE_PTR(1)
 
 /* ---- write_cast<int32_t>(stream, const long* data, count): `count` int32 fields, field k holds data[k] NARROWED to 32
  * bits (the value itself iff it fits an int32: the tensor writer's precondition).  Failures of the individual writes
